@@ -50,6 +50,9 @@ def generate(seed, tier):
     if rng.random() < 0.4:
         tb.append(model.clone(rng.choice(tb)))
         tb[-1]["sid"] = tb[-2]["sid"] + 1
+    if rng.random() < 0.15:
+        # a tree that is a single token: its tag is a tree root and a lexicon entry
+        tb.insert(rng.randrange(len(tb) + 1), model.token_tree(rng, k, sid=900))
     norders = rng.choice([2, 3])
     orders = [list(range(len(tb)))]
     for _ in range(norders - 1):
